@@ -33,6 +33,18 @@ CHECKS = {
         "Known finding S4a (pinned by a repository test) excluded by a narrow structural predicate and counted.",
         "DESIGN.md §5 C06",
     ),
+    "C08": (
+        "exhaustive tag-universe grid + Hypothesis specs/compressed tag sets against a rule predicate over a packaging-decided interpreter grid",
+        "30 requires_python shapes x 5 implementation/gil settings x every single (python, abi) tag of the stated universe (170 python tags x ~10 ABIs) decided exhaustively, plus generated requires_python texts with compressed tag sets; verdict and the first three score components must equal the statement's rule evaluated on the dense interpreter grid X.Y.Z (Z<=40).",
+        "Which interpreters requires_python admits is decided by packaging.SpecifierSet, not by dep-logic; grid/interval-ambiguous specs and empty specs refused by from_spec are skipped and counted.",
+        "DESIGN.md §5 C08",
+    ),
+    "C09": (
+        "complete enumeration of the platform grid against a PEP 600/656/macOS rule oracle cross-checked with packaging.tags",
+        "All 459 platforms of the quantifier's grid: tag list equals the rule oracle (as a list for manylinux/macOS, as a set for musllinux/windows), no duplicates, EnvSpec platform score strictly falls along the list with `any` last, foreign tags rejected. Exhaustive, so quick = thorough.",
+        "fat* formats stripped; linux_<arch> optional on musllinux; musllinux_1_0 (packaging only) ignored in the cross-check; arm64 on macOS 10.x excluded.",
+        "DESIGN.md §5 C09",
+    ),
     "C13": (
         "exhaustive fixed pools of coincidence objects + Hypothesis pools, relational oracle (reflexive/symmetric/transitive/hash/interchangeable)",
         "All pairs and triples of a fixed pool of ~60 specifier objects and ~70 marker objects built to contain cross-class equalities, cached-field variants and mirrored atoms, plus generated pools with differently-built copies; equal objects must hash alike, collapse in sets and give results of the same meaning as operands.",
@@ -45,11 +57,23 @@ CHECKS = {
         "Laws are judged with the library's own == (specifiers) / evaluate() (markers).",
         "DESIGN.md §5 C14",
     ),
+    "C16": (
+        "exhaustive pairs over a configuration grid + Hypothesis requires_python pairs; relational (monotonicity / nesting / compare laws) oracle",
+        "2280 EnvSpecs (19 requires_python x 30 platforms x 4 implementations): all 5.2M ordered pairs for the compare() relations, all same-(platform, implementation) pairs for wheel monotonicity over 176 wheels, all same-family platform release pairs for tag nesting; generated requires_python pairs on top.",
+        "Subset of requires_python decided with packaging on final, sub-micro and pre-release probe points; documented platform families only.",
+        "DESIGN.md §5 C16",
+    ),
     "C17": (
         "Hypothesis grammar + near-miss mutation strings, differential against packaging.SpecifierSet; atheris coverage-guided bytes in thorough",
         "Valid sets with every spelling the reference accepts, one-edit near misses, ||-joins and <empty>: acceptance must coincide with packaging, rejection must be dep-logic's InvalidSpecifier only, from_specifierset must not raise.",
         "+local operands, empty || alternatives and || with === are outside the claim and skipped (counted).",
         "DESIGN.md §5 C17",
+    ),
+    "C18": (
+        "Hypothesis PEP 427 grammar (valid + wrong extension/part count), differential against packaging.utils.parse_wheel_filename; exhaustive platform-name families; atheris in thorough",
+        "Generated wheel names with build tags, compressed tag sets and underscore-laden platform tags: tag sets must equal packaging's; wrong extension / part count must raise InvalidWheelFilename; every choices() family with multi-digit X_Y, aliases and str() round trip of the whole C09 grid.",
+        "Names packaging rejects for other reasons are outside the claim.",
+        "DESIGN.md §5 C18",
     ),
     "C19": (
         "complete enumeration of (operator, literal) pairs over a relation-closed pool + Hypothesis literals, 4-line reference membership",
